@@ -1,4 +1,5 @@
 import OrbitModel.Model.Lifecycle
+import OrbitModel.Proofs.GenEqClose
 import OrbitModel.Proofs.EmitterStop
 import OrbitModel.Proofs.CrashSummary
 /-!
@@ -54,5 +55,9 @@ theorem pinned_tree_leaks_goroutine (acts : List Act) :
     (run true (run true (init 1) lostWakeSchedule) acts).closed = false ∧
     (run true (run true (init 1) lostWakeSchedule) acts).g2 = .waiting :=
   pinned_stuck_forever acts
+
+/-- `Close` in the Go text of this run tests the already-closed guard before anything else, and
+unregisters the store (by address, in its instance) only after it -/
+theorem close_order_tied_to_go_text : Gen.closeOrder = Order.close := gen_close_order
 
 end Orbit.C18
